@@ -81,6 +81,11 @@ example : (mrun {} [.readOk true 3, .dispatch, .handlerRet, .writeOk true, .loop
 example : (mrun {} [.readOk false 0, .dispatch, .parseTooLarge 1]).map (·.files) = some [] := by decide
 example : (mrun {} [.readOk false 0, .dispatch, .parseTooLarge 1, .handlerRet, .writeOk true, .loopReset, .readOk false 0,
     .dispatch]).map (·.files) = some [] := by decide
+-- pre-parse: the form parsed completely (one temp file), then the announced rest of the body could not be read
+-- (early EOF / read error): nothing is left when the connection is closed
+example : (mrun {} [.readDrainFail 1 true, .release, .close]).map (·.files) = some [] := by decide
+example : (mrun {} [.readOk true 1, .dispatch, .handlerRet, .writeOk true, .loopReset, .readDrainFail 2 false, .release,
+    .close]).map (·.files) = some [] := by decide
 -- events the loop cannot produce are rejected (the theorems are about real traces only)
 example : mrun {} [.dispatch] = none := by decide
 example : mrun {} [.readOk true 1, .dispatch, .handlerRet, .writeOk true, .readOk true 1] = none := by decide
